@@ -275,6 +275,9 @@ func evalModel(c *Case, ps *paramSet, st *static, engine bool, roots map[int]*bi
 		for _, x := range a {
 			fastPath = fastPath || st.zeroLimb[x]
 		}
+		if (o.Op == "MulConst" && bigOf(o.K).Sign() == 0) || (o.Op == "Sum" && len(a) == 1) {
+			fastPath = true // returns before any width is enforced
+		}
 		for _, x := range a {
 			if x < len(c.In) && wide[x] > 0 {
 				m.wideIn[x] = true
